@@ -28,6 +28,7 @@ type c20Graph struct {
 	Arcs   []int   `json:"arcs"`             // N*N matrix, row-major, diagonal ignored
 	Loss   []int64 `json:"loss,omitempty"`   // optional N*N: for lost arcs, how many ms ago (overrides the state table)
 	Report []int64 `json:"report,omitempty"` // optional per node: how many ms ago its link state was issued (default 1)
+	Pre    bool    `json:"pre,omitempty"`    // history: every announcing node first announced live links to ALL nodes, and a table was computed from that
 }
 
 func (g c20Graph) lossAgo(i, j int) int64 {
@@ -148,6 +149,30 @@ func c20RunGraph(n *nhNode, g c20Graph) (key, desc string, entries int) {
 		}
 	}
 	vtime.Set(T)
+	if g.Pre {
+		// an earlier epoch of the network: every node that announces anything in g had live links to all other nodes;
+		// a routing table is computed from that, then the announcements of g (newer) replace the data. The final
+		// table must be the one of g alone - nothing of the earlier table may survive (differential oracle: the same
+		// reference as for the fresh instance).
+		for i := 1; i < g.N; i++ {
+			rep, any := int64(1), false
+			if len(g.Report) > i && g.Report[i] > 0 {
+				rep = g.Report[i]
+			}
+			peers := map[bpv7.EndpointID]bpv7.DtnTime{}
+			for j := 0; j < g.N; j++ {
+				if i != j {
+					peers[gen.MustEID(c20Name(j))] = 0
+					any = any || g.Arcs[i*g.N+j] != 0
+				}
+			}
+			if any {
+				d.VerifLinkState(c20LinkStateBundle(i, bpv7.DtnTimeFromTime(ago(rep))-5000, peers, uint64(200+i)))
+			}
+		}
+		d.VerifPurge()
+		d.VerifRecompute()
+	}
 	// link-state data of the other nodes: first an older announcement naming only one of the links (if there
 	// are several), then the complete, newer one - so that replacement of stored data is exercised as well
 	for i := 1; i < g.N; i++ {
@@ -457,6 +482,17 @@ func runC20(r *ev.Run, thorough bool) int {
 	graphs = append(graphs, c20Families()...)
 	graphs = append(graphs, c20Diamonds()...)
 	graphs = append(graphs, c20Returning()...)
+	// histories: the same graphs reached from an earlier, fully connected epoch (3-node graphs, families, diamonds,
+	// returning neighbours; thorough: the 4-node graphs as well)
+	nfresh := len(graphs)
+	for i := 0; i < nfresh; i++ {
+		g := graphs[i]
+		if g.N == 4 && len(g.Loss) == 0 && len(g.Report) == 0 && !thorough && i >= 4096 && i%3 != 0 {
+			continue
+		}
+		g.Pre = true
+		graphs = append(graphs, g)
+	}
 	var orders [][]int
 	for _, p := range permutations(4) {
 		orders = append(orders, p)
@@ -536,7 +572,7 @@ func runC20(r *ev.Run, thorough bool) int {
 		"traces_validated_against_impl": ng + oc + st.Validated,
 		"evaluations":                   ng + oc + st.Transitions,
 		"distinct_nontrivial":           entries + st.Outcomes,
-		"rule":                          "(a) ALL directed link-state graphs on 3 nodes with each arc absent / live / lost 10 s ago / lost 3 s ago (4^6), on 4 nodes with 3 arc states (3^12 thorough; quick: live/lost with at most one lost arc), structured families (paths, rings, stars, two-path diamonds with lost links of different age) on 5..8 nodes, and 4-node diamonds over 4 loss ages x 3 report ages per branch; every node with several links first announces one of them and then, with a newer timestamp, all of them: own links through ReportPeerAppeared/Disappeared at the virtual loss instants, foreign link state through NotifyNewBundle, recomputation through the registered task; the routing table is compared with Floyd-Warshall: entry <=> path, next hop an own neighbour with cost(self,nh)+dist(nh,d)=dist(self,d); (b) all arrival orders of 3 and 4 link-state updates of one node with timestamps 1,2,2,3: the first arrival of the newest timestamp is kept; (c) BFS over a live node: a unicast bundle is handed only to the table's next hop (or the destination) and then released, broadcast bundles at most once per peer",
+		"rule":                          "(a) ALL directed link-state graphs on 3 nodes with each arc absent / live / lost 10 s ago / lost 3 s ago (4^6), on 4 nodes with 3 arc states (3^12 thorough; quick: live/lost with at most one lost arc), structured families (paths, rings, stars, two-path diamonds with lost links of different age) on 5..8 nodes, and 4-node diamonds over 4 loss ages x 3 report ages per branch; every node with several links first announces one of them and then, with a newer timestamp, all of them: own links through ReportPeerAppeared/Disappeared at the virtual loss instants, foreign link state through NotifyNewBundle, recomputation through the registered task; the routing table is compared with Floyd-Warshall: entry <=> path, next hop an own neighbour with cost(self,nh)+dist(nh,d)=dist(self,d); every such graph (quick: a third of the exhaustive 4-node ones) also as a HISTORY: the announcing nodes first announced live links to all nodes, a table was computed, then the announcements of the graph replaced the data - the final table must equal the fresh one (no stale routes); (b) all arrival orders of 3 and 4 link-state updates of one node with timestamps 1,2,2,3: the first arrival of the newest timestamp is kept; (c) BFS over a live node: a unicast bundle is handed only to the table's next hop (or the destination) and then released, broadcast bundles at most once per peer",
 	}, []string{"exhaustive graphs beyond 4 nodes are not covered (families only)", "DTLSR seams call the algorithm's own code through one-line bridges"})
 }
 
